@@ -210,10 +210,10 @@ theorem yieldConnected_spec (proxy : Bool) (s : Sys) (hp : phaseOf s.trace = som
       exact (keeps_closeSocket.ok h2).accT hy.1.g.accT
     · rw [hr]; exact hy.1.g.accT
 
-theorem afterConnectL_spec (l : M Unit) (hl : ∀ s, InvL s → GU (l s).state) (proxy : Bool) (s : Sys)
+theorem afterConnectL_spec (l : M Unit) (hl : ∀ s, InvL s → GU (l s).state) (proxy sel : Bool) (s : Sys)
     (hp : phaseOf s.trace = some .connecting) (hf : Fresh s) (hn : NoInc s) (hi : HI s) (r0 : React) (hj : J r0 s)
     (hP : ∀ s1 s2, InvL s1 → J r0 s1 → l s1 = .ok () s2 → P s2.hist) :
-    Res.sat (afterConnectL l proxy s) (Done P) (AccT P) := by
+    Res.sat (afterConnectL l proxy sel s) (Done P) (AccT P) := by
   unfold afterConnectL
   rw [modS_bind, bind_ok (show getS { s with sockOpen := true } = .ok _ _ from rfl)]
   obtain ⟨r, s1, hw⟩ := write_ok s.cfg.request none { s with sockOpen := true }
@@ -235,15 +235,15 @@ theorem afterConnectL_spec (l : M Unit) (hl : ∀ s, InvL s → GU (l s).state) 
     | ok u s2 =>
       rw [hr] at hy; rw [bind_ok hr, modS_bind]
       have hj2 : J r0 s2 := (okPres_yieldConnected (r0 := r0) (h0 := []) proxy s1 _ s2 ⟨hj1, List.nil_suffix⟩ hr).1
-      have hi2 : InvL { s2 with selOpen := true } := Or.inl ⟨hy.1, fun _ => hy.2⟩
+      have hi2 : InvL { s2 with selOpen := sel } := Or.inl ⟨hy.1, fun _ => hy.2⟩
       exact runLoopL_spec l hl _ hi2 (fun s3 h3 => hP _ s3 hi2 hj2 h3)
 
 /-- **`run()` and the monitor.**  From a fresh state, for any loop body `l` that keeps the loop
     invariant: a normal return means the monitor is in its final state (exactly one terminal event,
     last); an exceptional end (abandonment, end of script) leaves an accepted prefix; the
     end-of-script marker is never in the trace; `Disconnected(graceful=True)` is emitted only when
-    `l` ended normally.  When a socket existed, every terminal event in the trace is preceded by
-    `sockClose`. -/
+    `l` ended normally.  When a socket existed (also when the selector's constructor then raised, in
+    which case the loop is `raise`), every terminal event in the trace is preceded by `sockClose`. -/
 theorem runL_spec (l : M Unit) (hl : ∀ s, InvL s → GU (l s).state) (s : Sys) (ht : s.trace = [])
     (hh : s.hist = []) (hf : Fresh s) (r0 : React) (hj : J r0 s)
     (hP : ∀ s1 s2, InvL s1 → J r0 s1 → l s1 = .ok () s2 → P s2.hist) :
@@ -251,7 +251,7 @@ theorem runL_spec (l : M Unit) (hl : ∀ s, InvL s → GU (l s).state) (s : Sys)
     NoInc (runL l s).state ∧
     HI (runL l s).state ∧
     gracefulOK P (runL l s).state.trace ∧
-    ((∃ proxy, s.cfg.connect = .ok proxy) → termOK (runL l s).state.trace) := by
+    ((∃ proxy, s.cfg.connect = .ok proxy ∨ s.cfg.connect = .selFail proxy) → termOK (runL l s).state.trace) := by
   have k := yieldEv_keeps .connecting s
   have st := step_yieldEv .connecting s
   have hp0 : phaseOf (pushEv .connecting s).trace = some .connecting := by
@@ -291,12 +291,20 @@ theorem runL_spec (l : M Unit) (hl : ∀ s, InvL s → GU (l s).state) (s : Sys)
       · exact gracefulOK_of_noTerminal P _ (phaseOf_noTerminal hp1 (by decide))
     have hcfg : s1.cfg = s.cfg := st.cfg
     cases hc : s1.cfg.connect with
-    | socketFail => exact ⟨(hfail _).1, (hfail _).2.1, (hfail _).2.2.1, (hfail _).2.2.2, fun ⟨p, hp⟩ => by rw [← hcfg, hc] at hp; cases hp⟩
-    | otherFail => exact ⟨(hfail _).1, (hfail _).2.1, (hfail _).2.2.1, (hfail _).2.2.2, fun ⟨p, hp⟩ => by rw [← hcfg, hc] at hp; cases hp⟩
+    | socketFail => exact ⟨(hfail _).1, (hfail _).2.1, (hfail _).2.2.1, (hfail _).2.2.2, fun ⟨p, hp⟩ => by rw [← hcfg, hc] at hp; rcases hp with hp | hp <;> cases hp⟩
+    | otherFail => exact ⟨(hfail _).1, (hfail _).2.1, (hfail _).2.2.1, (hfail _).2.2.2, fun ⟨p, hp⟩ => by rw [← hcfg, hc] at hp; rcases hp with hp | hp <;> cases hp⟩
     | ok proxy =>
       simp only []
-      have := afterConnectL_spec l hl proxy s1 hp1 hf1 hn1 hi1 r0 hj1 hP
-      cases hr2 : afterConnectL l proxy s1 with
+      have := afterConnectL_spec l hl proxy true s1 hp1 hf1 hn1 hi1 r0 hj1 hP
+      cases hr2 : afterConnectL l proxy true s1 with
+      | ok u s2 => rw [hr2] at this; exact ⟨this.1, this.2.2.1, this.2.2.2.1, this.2.2.2.2, fun _ => this.2.1⟩
+      | err x s2 => rw [hr2] at this; exact ⟨this.1, this.2.2.1, this.2.2.2.1, this.2.2.2.2, fun _ => this.2.1⟩
+    | selFail proxy =>
+      -- the selector's constructor raised: the "loop" is `raise`, which never ends normally
+      simp only []
+      have := afterConnectL_spec (P := P) (throwE (.other "error")) (fun s hs => hs.g.gu) proxy false s1
+        hp1 hf1 hn1 hi1 r0 hj1 (fun _ _ _ _ h => by cases h)
+      cases hr2 : afterConnectL (throwE (.other "error")) proxy false s1 with
       | ok u s2 => rw [hr2] at this; exact ⟨this.1, this.2.2.1, this.2.2.2.1, this.2.2.2.2, fun _ => this.2.1⟩
       | err x s2 => rw [hr2] at this; exact ⟨this.1, this.2.2.1, this.2.2.2.1, this.2.2.2.2, fun _ => this.2.1⟩
 
